@@ -661,21 +661,21 @@ cdef class ExtendedZOrderNNPS(ZOrderNNPS):
         return length
 
     cdef int _neighbor_boxes_func(self, int i, int j, int k,
-            int* current_key_to_idx, uint32_t* current_cids,
-            double* current_hmax, int num_particles,
+            int* current_key_to_idx, uint32_t* current_pids,
+            uint32_t* current_cids, double* current_hmax, int num_particles,
             int* found_indices, double h):
         if self.asymmetric:
             return self._neighbor_boxes_asym(i, j, k, current_key_to_idx,
-                    current_cids, current_hmax, num_particles,
+                    current_pids, current_cids, current_hmax, num_particles,
                     found_indices, h)
         else:
             return self._neighbor_boxes_sym(i, j, k, current_key_to_idx,
-                    current_cids, current_hmax, num_particles,
+                    current_pids, current_cids, current_hmax, num_particles,
                     found_indices, h)
 
     cdef int _neighbor_boxes_asym(self, int i, int j, int k,
-            int* current_key_to_idx, uint32_t* current_cids,
-            double* current_hmax, int num_particles,
+            int* current_key_to_idx, uint32_t* current_pids,
+            uint32_t* current_cids, double* current_hmax, int num_particles,
             int* found_indices, double h) noexcept nogil:
         cdef int length = 0
 
@@ -708,8 +708,8 @@ cdef class ExtendedZOrderNNPS(ZOrderNNPS):
 
     @cython.cdivision(True)
     cdef int _neighbor_boxes_sym(self, int i, int j, int k,
-            int* current_key_to_idx, uint32_t* current_cids,
-            double* current_hmax, int num_particles,
+            int* current_key_to_idx, uint32_t* current_pids,
+            uint32_t* current_cids, double* current_hmax, int num_particles,
             int* found_indices, double h) noexcept nogil:
         cdef int length = 0
 
@@ -737,7 +737,9 @@ cdef class ExtendedZOrderNNPS(ZOrderNNPS):
                         if found_idx == -1:
                             continue
 
-                        cid = current_cids[found_idx]
+                        # found_idx is a position in the sorted order, the
+                        # cids are stored per particle
+                        cid = current_cids[current_pids[found_idx]]
 
                         h_local = self.radius_scale * fmax(current_hmax[cid], h)
                         H = <int> ceil(h_local / self.h_sub)
@@ -832,8 +834,9 @@ cdef class ExtendedZOrderNNPS(ZOrderNNPS):
                 )
 
             num_boxes = self._neighbor_boxes_func(c_x, c_y, c_z,
-                    current_key_to_idx, current_cids, current_hmax,
-                    num_particles, found_indices, current_hmax[cid])
+                    current_key_to_idx, current_pids, current_cids,
+                    current_hmax, num_particles, found_indices,
+                    current_hmax[cid])
 
             for k in range(num_boxes):
                 found_idx = found_indices[k]
@@ -857,8 +860,9 @@ cdef class ExtendedZOrderNNPS(ZOrderNNPS):
                         )
 
                     num_boxes = self._neighbor_boxes_func(c_x, c_y, c_z,
-                            current_key_to_idx, current_cids, current_hmax,
-                            num_particles, found_indices, current_hmax[cid])
+                            current_key_to_idx, current_pids, current_cids,
+                            current_hmax, num_particles, found_indices,
+                            current_hmax[cid])
 
                     for k in range(num_boxes):
                         found_idx = found_indices[k]
@@ -894,8 +898,9 @@ cdef class ExtendedZOrderNNPS(ZOrderNNPS):
                         )
 
                     num_boxes = self._neighbor_boxes_func(c_x, c_y, c_z,
-                            current_key_to_idx, current_cids, current_hmax,
-                            num_particles, found_indices, current_hmax[cid])
+                            current_key_to_idx, current_pids, current_cids,
+                            current_hmax, num_particles, found_indices,
+                            current_hmax[cid])
 
                     for k in range(num_boxes):
                         current_nbr_boxes[self.mask_len*cid + k] = found_indices[k]
